@@ -1,5 +1,4 @@
 """C32: replay of MC_SysAlgCreate states on PythTB / TBmodels and on wannierberri's import (helper of props/sysalg.py)."""
-import copy
 import random
 import warnings
 import numpy as np
@@ -171,13 +170,16 @@ def tla_tab(tab):
 
 def replay_create(rep, s, lib, norb, ns, tag):
     steps = s["steps"]
-    detail = dict(config=tag, steps=O._js(steps))
-    rep.case((tag, repr(steps), repr(s["m"].get("site") if isinstance(s["m"], dict) else None), repr(s["t"].get("hop2") if "hop2" in s["t"] else None)),
-             nontrivial=bool(steps) or lib == "haldane")
+    skew = bool(W.stable_hash((tag, steps)) & 1)
+    with_ev = W.stable_hash(("ev", tag, steps)) % 8 == 0
+    detail = dict(config=tag, steps=O._js(steps), skew_cell=skew)
+    rep.case((tag, W.stable_key(steps), W.stable_key(s["m"].get("site") if isinstance(s["m"], dict) else None),
+              W.stable_key(s["t"].get("hop2") if "hop2" in s["t"] else None)), nontrivial=bool(steps) or lib == "haldane")
     maxdev = 0.0
+    sysP = sysT = None
     if lib in ("ptb", "pair"):
         pos = s["m"]["pos"]
-        model = ptb_new(norb, ns, pos)
+        model = ptb_new(norb, ns, pos, skew)
         raised = False
         for st in steps:
             if lib == "pair":
@@ -189,55 +191,48 @@ def replay_create(rep, s, lib, norb, ns, tag):
             else:
                 raised = ptb_step(model, st, ns)
         if steps and raised != s["raised"]:
-            rep.violation("pythtb.set_hop:refusal", dict(detail, expected_raises=s["raised"], got_raises=raised))
+            raise Environment(f"pythtb.set_hop refusal differs from the modelled library: {detail}, expected_raises={s['raised']}, got_raises={raised}")
         try:
             site, tab = ptb_state(model, ns)
-        except W.NonIntegral as ex:
-            rep.violation("pythtb:non-integral", dict(detail, error=str(ex)))
-            return 0.0
+        except (W.NonIntegral, AttributeError, KeyError) as ex:
+            raise Environment(f"pythtb builder state not readable: {ex!r}")
         exp_site = [W.tla_mat(b) for b in s["m"]["site"]]
         if any(not np.array_equal(a, b) for a, b in zip(site, exp_site)) or tab != tla_tab(s["m"]["tab"]):
-            rep.violation("pythtb:builder_state", dict(detail, expected_site=[O._c(b) for b in exp_site], got_site=[O._c(b) for b in site],
-                                                       expected_table=sorted(map(repr, tla_tab(s["m"]["tab"]))), got_table=sorted(map(repr, tab))))
-        try:
-            sysP = import_real(model, "ptb")
-        except Exception as ex:
-            only_home = all(e[2] == (0, 0, 0) for e in tab)
-            rep.violation("from_pythtb:raises" + (":no_hopping_with_lattice_vector" if only_home else ""),
-                          dict(detail, error=repr(ex)[:300], note="the specification defines the imported system for every builder state"))
-            return maxdev
-        maxdev = max(maxdev, _compare_import(rep, sysP, s["impP"], "from_pythtb", detail))
-        maxdev = max(maxdev, energies_vs_source(rep, model, "ptb", sysP, detail, "from_pythtb"))
+            raise Environment(f"pythtb builder state differs from the modelled library: {detail}, expected table {sorted(map(repr, tla_tab(s['m']['tab'])))}, "
+                              f"got {sorted(map(repr, tab))}")
+        sysP = safe_import(rep, model, "ptb", dict(detail, note="the specification defines the imported system for every builder state"))
+        if sysP is not None:
+            _compare_import(rep, sysP, s["impP"], "from_pythtb", detail)
+            maxdev = max(maxdev, energies_vs_source(rep, model, "ptb", sysP, detail, "from_pythtb", with_evaluate_k=with_ev))
     if lib in ("tbm", "pair"):
         t = s["t"]
-        onsite = [0] * norb
         # the constructor's on_site is what the first state of the history had at R = 0
-        model = tbm_new(norb, t["pos"], s["_onsite0"])
+        model = tbm_new(norb, t["pos"], s["_onsite0"], skew)
         for st in steps:
             if lib == "pair":
                 st = dict(f="add_hop", amp=st["amp"], i=st["i"], j=st["j"], R=st["R"]) if st["f"] == "hop" else dict(f="add_on_site", vals=st["vals"])
             tbm_step(model, st)
         try:
             hop2 = tbm_state(model)
-        except W.NonIntegral as ex:
-            rep.violation("tbmodels:non-integral", dict(detail, error=str(ex)))
-            return maxdev
+        except (W.NonIntegral, AttributeError, KeyError) as ex:
+            raise Environment(f"tbmodels builder state not readable: {ex!r}")
         exp = {tuple(K): W.tla_mat(t["hop2"][K]) for K in t["keys"]}
         # TBmodels may hold keys with zero matrices or lack keys the specification holds with zeros: compare as functions
         keys = set(exp) | set(hop2)
         z = np.zeros((norb, norb), dtype=complex)
-        if any(not np.array_equal(exp.get(K, z), hop2.get(K, z)) for K in keys) or set(exp) != set(hop2):
-            rep.violation("tbmodels:builder_state", dict(detail, expected={str(K): O._c(v) for K, v in exp.items()}, got={str(K): O._c(v) for K, v in hop2.items()}))
+        if any(not np.array_equal(exp.get(K, z), hop2.get(K, z)) for K in keys):
+            raise Environment(f"tbmodels builder state differs from the modelled library: {detail}")
+        sysT = safe_import(rep, model, "tbm", detail)
+        if sysT is not None:
+            _compare_import(rep, sysT, s["impT"], "from_tbmodels", detail)
+            maxdev = max(maxdev, energies_vs_source(rep, model, "tbm", sysT, detail, "from_tbmodels", with_evaluate_k=with_ev))
+    if lib == "pair" and sysP is not None and sysT is not None:
         try:
-            sysT = import_real(model, "tbm")
-        except Exception as ex:
-            rep.violation("from_tbmodels:raises", dict(detail, error=repr(ex)[:300]))
+            a, _ = W.project(sysP)
+            b, _ = W.project(sysT)
+        except W.NonIntegral as ex:
+            rep.violation("from_pythtb_vs_from_tbmodels:non-integral", dict(detail, error=str(ex)))
             return maxdev
-        maxdev = max(maxdev, _compare_import(rep, sysT, s["impT"], "from_tbmodels", detail))
-        maxdev = max(maxdev, energies_vs_source(rep, model, "tbm", sysT, detail, "from_tbmodels"))
-    if lib == "pair" and "sysP" in locals():
-        a, _ = W.project(sysP)
-        b, _ = W.project(sysT)
         d = _diff_fun(a, b)
         if d:
             rep.violation("from_pythtb_vs_from_tbmodels:same_hoppings", dict(detail, differences=d[:5]))
@@ -245,31 +240,26 @@ def replay_create(rep, s, lib, norb, ns, tag):
 
 
 def _diff_fun(a, b):
-    """systems compared as functions of R (the stored R-sets may differ by zero matrices)"""
-    d = []
-    if a["nw"] != b["nw"] or not np.array_equal(a["cen"], b["cen"]):
-        d.append(f"nw/centres differ: {a['cen'].tolist()} vs {b['cen'].tolist()}")
-        return d
-    z = np.zeros((a["nw"], a["nw"]), dtype=complex)
-    for R in sorted(set(a["rs"]) | set(b["rs"])):
-        if not np.array_equal(a["H"].get(R, z), b["H"].get(R, z)):
-            d.append(f"Ham({R}): {a['H'].get(R, z).tolist()} vs {b['H'].get(R, z).tolist()}")
-    return d
+    """systems compared as functions of R (the stored R-sets may differ by zero matrices), centres modulo lattice vectors"""
+    return W.diff_sys(a, b, centres=True, mod_cell=True)
 
 
 def _compare_import(rep, system, imp, site, detail):
+    """Hamiltonian as a function of R; centres modulo lattice vectors (the statement is about band energies: whether the import
+    wraps the positions into the home cell is a representation). The private views of the centres are information only"""
     try:
         got, views = W.project(system)
     except W.NonIntegral as ex:
         rep.violation(f"{site}:non-integral", dict(detail, error=str(ex)))
         return 0.0
     exp = W.sys_from_tla(imp)
-    d = W.diff_sys(exp, got)
+    d = W.diff_sys(exp, got, centres=True, mod_cell=True)
     if d:
         rep.violation(f"{site}:projection", dict(detail, differences=d[:6]))
-    dv = W.diff_views(exp["cen"], views)
-    if dv:
-        rep.violation(f"{site}:shifts", dict(detail, differences=dv))
+    if not np.array_equal(exp["cen"], got["cen"]):
+        O._bump(rep, "import_centres_not_wrapped_like_the_specification", site)
+    if W.diff_views(got["cen"], views):
+        O._bump(rep, "import_private_views_of_centres_differ", site)
     return 0.0
 
 
@@ -283,40 +273,128 @@ def haldane_case(rep, delta_u, hop1_u, t2_u, imp_exp=None):
     args = dict(delta=delta, hop1=hop1, hop2=hop2, phi=phi)
     detail = dict(parameters=args, units_of=UNIT)
     rep.case(("haldane", delta_u, hop1_u, tuple(t2_u)))
-    with warnings.catch_warnings():
-        warnings.simplefilter("ignore")
-        mp = models.Haldane_ptb(**args)
-        mt = models.Haldane_tbm(**args)
-    sp, stb = import_real(mp, "ptb"), import_real(mt, "tbm")
+
+    def make(fn):
+        with warnings.catch_warnings():
+            warnings.simplefilter("ignore")
+            return fn(**args)
+    okp, mp = W.guarded(rep, "models.Haldane_ptb", detail, make, models.Haldane_ptb)
+    okt, mt = W.guarded(rep, "models.Haldane_tbm", detail, make, models.Haldane_tbm)
+    sp = safe_import(rep, mp, "ptb", detail) if okp else None
+    stb = safe_import(rep, mt, "tbm", detail) if okt else None
     out = {}
     for name, s_ in (("ptb", sp), ("tbm", stb)):
+        if s_ is None:
+            continue
         try:
             out[name], _ = W.project(s_, scale=1.0 / UNIT)
         except W.NonIntegral as ex:
             rep.violation(f"models.Haldane_{name}:non-integral", dict(detail, error=str(ex)))
-            return
     if imp_exp is not None:
-        for name in ("ptb", "tbm"):
-            d = _diff_fun(W.sys_from_tla(imp_exp[name]), out[name])
-            if d:
-                rep.violation(f"models.Haldane_{name}:differs_from_specification", dict(detail, differences=d[:4],
-                              note="on-site energies must be -delta, +delta" if any("(0, 0, 0)" in x for x in d) else ""))
-    d = _diff_fun(out["ptb"], out["tbm"])
-    if d:
-        rep.violation("models.Haldane_ptb_vs_Haldane_tbm:same_parameters", dict(detail, differences=d[:4]))
-    energies_vs_source(rep, mp, "ptb", sp, detail, "models.Haldane_ptb")
-    energies_vs_source(rep, mt, "tbm", stb, detail, "models.Haldane_tbm")
+        for name in out:
+            if _diff_fun(W.sys_from_tla(imp_exp[name]), out[name]):          # information: the statement only asks ptb = tbm
+                O._bump(rep, "haldane_differs_from_the_specifications_hopping_list", name)
+    if len(out) == 2:
+        d = _diff_fun(out["ptb"], out["tbm"])
+        if d:
+            rep.violation("models.Haldane_ptb_vs_Haldane_tbm:same_parameters", dict(detail, differences=d[:4]))
+    if sp is not None:
+        energies_vs_source(rep, mp, "ptb", sp, detail, "models.Haldane_ptb")
+    if stb is not None:
+        energies_vs_source(rep, mt, "tbm", stb, detail, "models.Haldane_tbm")
+
+
+def bundled_and_other_dimensions(rep, rng, thorough):
+    """numeric (deciding, 1e-8): every bundled PythTB builder (1-D, 2-D, 3-D, spinful) with default and other parameters, a PythTB model
+    with a non-periodic direction, random 1-D / 3-D PythTB and TBmodels models: energies of the import vs the model's own solver"""
+    from wannierberri import models
+    import pythtb
+    import tbmodels
+    maxdev, n = 0.0, 0
+    cases = [("Chiral", {}), ("Chiral", dict(delta=1.0, hop1=0.5, hop2=0.25, phi=0.7, hopz_right=0.3, hopz_left=0.1, hopz_vert=0.2)),
+             ("SSH_ptb", {}), ("SSH_ptb", dict(delta=-0.5, hop1=0.75, hop2=0.4)), ("CuMnAs_2d", {}), ("CuMnAs_2d", dict(nx=1, ny=0, nz=1, hop1=0.5, hop2=0.2, l=0.3, J=0.4, dt=0.1)),
+             ("KaneMele_ptb", dict(topological="even")), ("KaneMele_ptb", dict(topological="odd")), ("Chiral_OSD", {}), ("model_1d_pythtb", {}),
+             ("model_1d_pythtb", dict(Delta=0.5, spinor_manual=True)), ("Haldane_ptb", dict(delta=-0.3, hop1=0.8, hop2=0.25, phi=1.1))]
+    for name, kw in cases:
+        detail = dict(builder=name, parameters=kw)
+
+        def make():
+            with quiet(), warnings.catch_warnings():
+                warnings.simplefilter("ignore")
+                return getattr(models, name)(**kw)
+        ok, m = W.guarded(rep, f"models.{name}", detail, make)
+        if not ok:
+            continue
+        if type(m).__module__.split(".")[0] != "pythtb":       # a builder may return something else for some parameters (e.g. a system)
+            W.note_skip(f"models.{name}{kw}", f"returns {type(m).__name__}")
+            continue
+        system = safe_import(rep, m, "ptb", detail)
+        if system is None:
+            continue
+        rep.case(("bundled", name, W.stable_key(kw)))
+        n += 1
+        maxdev = max(maxdev, energies_vs_source(rep, m, "ptb", system, detail, f"from_pythtb:models.{name}", dim_k=int(m.dim_k)))
+    # a PythTB model with a non-periodic direction (2-D cell, periodic along the first vector only)
+    for it in range(4 if thorough else 2):
+        lat = pythtb.Lattice(lat_vecs=CELLS[bool(it % 2)], orb_vecs=[[0.0, 0.0], [0.25, 0.5]], periodic_dirs=[0])
+        m = pythtb.TBModel(lat)
+        on = [rng.randint(-2, 2), rng.randint(-2, 2)]
+        m.set_onsite([float(x) for x in on])
+        hops = [(complex(rng.randint(-2, 2), rng.randint(-2, 2)) / 2, rng.randint(0, 1), rng.randint(0, 1), [rng.choice([1, 2]), 0]) for _ in range(3)]
+        for amp, i, j, R in hops:
+            m.set_hop(amp, i, j, R, mode="add", allow_conjugate_pair=True)
+        detail = dict(kind="pythtb periodic_dirs=[0] in a 2-D cell", onsite=on, hoppings=[[[h[0].real, h[0].imag], h[1], h[2], h[3]] for h in hops])
+        system = safe_import(rep, m, "ptb", detail)
+        if system is None:
+            continue
+        rep.case(("nonperiodic", it))
+        n += 1
+        maxdev = max(maxdev, energies_vs_source(rep, m, "ptb", system, detail, "from_pythtb:non_periodic_direction", dim_k=1))
+        per = W.private("periodic", lambda: [bool(x) for x in system.periodic])
+        if per is not None and per[:2] != [True, False]:
+            O._bump(rep, "import_declares_a_non_periodic_direction_periodic", "from_pythtb")
+    # random 1-D and 3-D models in both libraries
+    for it in range(12 if thorough else 4):
+        dim = (1, 3)[it % 2]
+        norb = rng.choice([1, 2, 3])
+        pos = [[rng.choice([0.0, 0.25, 1.25, -0.5]) for _ in range(dim)] for _ in range(norb)]
+        cell = (np.eye(dim) + (np.tril(np.ones((dim, dim)), -1) if it % 4 >= 2 else 0)).tolist()
+        onsite = [float(rng.randint(-2, 2)) for _ in range(norb)]
+        hops = []
+        for _ in range(rng.randint(2, 5)):
+            i, j = rng.randint(0, norb - 1), rng.randint(0, norb - 1)
+            R = [rng.randint(-1, 2) for _ in range(dim)]
+            if i == j and not any(R):
+                continue
+            hops.append((complex(rng.randint(-3, 3), rng.randint(-3, 3)) / 4, i, j, R))
+        detail = dict(dim=dim, cell=cell, positions=pos, onsite=onsite, hoppings=[[[h[0].real, h[0].imag], h[1], h[2], h[3]] for h in hops])
+        mp = pythtb.TBModel(pythtb.Lattice(lat_vecs=cell, orb_vecs=pos, periodic_dirs=list(range(dim))))
+        mp.set_onsite(onsite)
+        mt = tbmodels.Model(on_site=onsite, dim=dim, pos=pos, size=norb, uc=cell)
+        for amp, i, j, R in hops:
+            mp.set_hop(amp, i, j, R, mode="add", allow_conjugate_pair=True)
+            mt.add_hop(amp, i, j, R)
+        for module, m in (("ptb", mp), ("tbm", mt)):
+            system = safe_import(rep, m, module, detail)
+            if system is None:
+                continue
+            rep.case(("otherdim", module, it))
+            n += 1
+            maxdev = max(maxdev, energies_vs_source(rep, m, module, system, detail, f"from_{'pythtb' if module == 'ptb' else 'tbmodels'}:{dim}d", dim_k=dim))
+    rep.part("numeric_deciding_other_dimensions_and_bundled_builders", cases=n, max_deviation=maxdev, tolerance=1e-8)
 
 
 def check_c32(rep, thorough):
     rng = random.Random(seed() * 7919 + 32)
-    w = 16
+    w = O.TLC_WORKERS
     rep.rule("TLC enumerates call histories (<= MAXSTEPS calls from small alphabets of amplitudes, orbitals, lattice vectors, modes) of the PythTB and "
-             "TBmodels builders and the parameter grid of the bundled Haldane builders; a case = one TLC state (history) executed on the real library, "
-             "its internal state, the imported system (exact projection) and the energies vs the library's own solver compared; plus seeded random "
-             "recorded histories validated by TLC; distinct by history")
-    rep.assume("symbolic/callable PythTB parameters and TBmodels constructor hoppings are outside the model (numeric builder calls only); positions enter only "
-               "through `% 1`; energies are compared at 5 k-points with 1e-8")
+             "TBmodels builders and the parameter grid of the bundled Haldane builders; a case = one TLC state (history) executed on the real library "
+             "(orthogonal or skew cell by a hash of the history), the imported system (exact projection as a function of R, centres modulo lattice "
+             "vectors) and the energies vs the library's own solver compared; plus seeded random recorded histories validated by TLC; distinct by history")
+    rep.assume("symbolic/callable PythTB parameters, TBmodels constructor hoppings (hop=), contains_cc=False and models read from files are outside "
+               "(numeric builder calls only); the exact state machines are two-dimensional, other dimensions (1-D, 3-D, a non-periodic direction) and "
+               "the other bundled builders are covered by the numeric part only; energies are compared at 5 k-points with 1e-8; that the third-party "
+               "builders behave like the modelled versions is a precondition (a difference is a machinery error, not a violation)")
     if thorough:
         runs = [("c32_ptb", dict(LIB='"ptb"', NORB=2, NS=1, MAXSTEPS=2, KDIRS=1, NAMP=2)),
                 ("c32_ptb_3steps", dict(LIB='"ptb"', NORB=1, NS=1, MAXSTEPS=3, KDIRS=1, NAMP=1)),
@@ -325,9 +403,9 @@ def check_c32(rep, thorough):
                 ("c32_pair", dict(LIB='"pair"', NORB=2, NS=1, MAXSTEPS=3, KDIRS=2, NAMP=1)),
                 ("c32_haldane", dict(LIB='"haldane"'))]
     else:
-        runs = [("c32_ptb", dict(LIB='"ptb"', NORB=2, NS=1, MAXSTEPS=2, KDIRS=1, NAMP=1)),
-                ("c32_ptb_spinful", dict(LIB='"ptb"', NORB=1, NS=2, MAXSTEPS=2, KDIRS=1, NAMP=2)),
-                ("c32_tbm", dict(LIB='"tbm"', NORB=2, NS=1, MAXSTEPS=2, KDIRS=2, NAMP=1)),
+        runs = [("c32_ptb", dict(LIB='"ptb"', NORB=1, NS=1, MAXSTEPS=2, KDIRS=1, NAMP=1)),
+                ("c32_ptb_spinful", dict(LIB='"ptb"', NORB=1, NS=2, MAXSTEPS=2, KDIRS=1, NAMP=1)),
+                ("c32_tbm", dict(LIB='"tbm"', NORB=2, NS=1, MAXSTEPS=2, KDIRS=1, NAMP=1)),
                 ("c32_pair", dict(LIB='"pair"', NORB=2, NS=1, MAXSTEPS=2, KDIRS=2, NAMP=1)),
                 ("c32_haldane", dict(LIB='"haldane"'))]
     maxdev = 0.0
@@ -340,7 +418,7 @@ def check_c32(rep, thorough):
         rep.add_tlc(name, st)
         lib = kw["LIB"].strip('"')
         n, nraised, nsteps = 0, 0, 0
-        for s in ftable.dump_states(st):
+        for s in O.sorted_states(st, lambda s: W.stable_key((s["steps"], s["m"], s["t"]))):
             n += 1
             if lib == "haldane":
                 site = [W.tla_mat(b)[0, 0].real for b in s["m"]["site"]]
@@ -368,26 +446,48 @@ def check_c32(rep, thorough):
             raise MachineryError("c32_ptb: vacuous, no refused set_hop")
         rep.part(name, replayed=n, refused_calls=nraised)
     c0, _ = cfg(LIB='"haldane"', OverrideDelta="TRUE")
-    st0 = tlc.run_tlc("MC_SysAlgCreate.tla", c0, "c32_haldane_override", workers=4, coverage=False, timeout=900)
+    st0 = O.run_tlc("MC_SysAlgCreate.tla", c0, "c32_haldane_override", workers=2, timeout=900)
     if not st0.get("violation") or st0["violation"][1] != "BuildersAgree":
         raise MachineryError(f"sensitivity self-test failed: the delta override must violate BuildersAgree ({st0.get('violation')}, {str(st0.get('error'))[:200]})")
     rep.part("c32_haldane_override", sensitivity_violation="BuildersAgree")
     # defaults of the bundled builders (delta = 0.2): must agree
     haldane_case(rep, 1, -5, (0, 1))
     rep.part("energies_vs_source_solver", max_deviation=maxdev, tolerance=1e-8)
+    bundled_and_other_dimensions(rep, rng, thorough)
 
     # ---- code -> spec: random histories
     recs = []
-    nrec = 300 if thorough else 36
+    nrec = 300 if thorough else 15
+    Rs = [(1, 0, 0), (0, 1, 0), (-1, 1, 0), (0, 0, 0), (2, -1, 0), (-1, 0, 0)]
+
+    def rec_tbm(rng, norb, pos, skew):
+        onsite = [rng.randint(-2, 2) for _ in range(norb)]
+        model = tbm_new(norb, pos, onsite, skew)
+        steps = []
+        for _ in range(rng.randint(1, 6)):
+            if rng.random() < 0.2:
+                st = dict(f="add_on_site", vals=[rng.randint(-2, 2) for _ in range(norb)])
+            else:
+                st = dict(f="add_hop", amp=[rng.randint(-3, 3), rng.randint(-3, 3)], i=rng.randint(1, norb), j=rng.randint(1, norb), R=list(rng.choice(Rs)))
+            tbm_step(model, st)
+            steps.append(st)
+        hop2 = tbm_state(model)
+        keys = sorted(hop2)
+        real = safe_import(rep, model, "tbm", dict(steps=steps, size=norb))
+        if real is None:
+            return None
+        imp, _ = W.project(real)
+        return dict(fn="tbm", size=norb, pos=pos, onsite=onsite, steps=steps, keys=[list(K) for K in keys],
+                    hop2=[W.mat_json(hop2[K]) for K in keys], imp=W.sys_json(imp))
     for i in range(nrec):
         kind = i % 3
         norb = rng.choice([1, 2, 3])
+        skew = bool(i % 2)
         pos = [[rng.choice([0, 3, 4, 15, -2]), rng.choice([0, 6, 8]), 0] for _ in range(norb)]
-        Rs = [(1, 0, 0), (0, 1, 0), (-1, 1, 0), (0, 0, 0), (2, -1, 0), (-1, 0, 0)]
         try:
             if kind == 0:
                 ns = rng.choice([1, 1, 2])
-                model = ptb_new(norb, ns, pos)
+                model = ptb_new(norb, ns, pos, skew)
                 steps, raised = [], []
                 for _ in range(rng.randint(2, 6)):
                     if rng.random() < 0.3:
@@ -409,23 +509,12 @@ def check_c32(rep, thorough):
                                  tab=[dict(i=e[0], j=e[1], R=list(e[2]), amp=[[list(g) for g in row] for row in e[3]]) for e in sorted(tab)],
                                  imp=W.sys_json(imp)))
             elif kind == 1:
-                onsite = [rng.randint(-2, 2) for _ in range(norb)]
-                model = tbm_new(norb, pos, onsite)
-                steps = []
-                for _ in range(rng.randint(1, 6)):
-                    if rng.random() < 0.2:
-                        st = dict(f="add_on_site", vals=[rng.randint(-2, 2) for _ in range(norb)])
-                    else:
-                        st = dict(f="add_hop", amp=[rng.randint(-3, 3), rng.randint(-3, 3)], i=rng.randint(1, norb), j=rng.randint(1, norb), R=list(rng.choice(Rs)))
-                    tbm_step(model, st)
-                    steps.append(st)
-                hop2 = tbm_state(model)
-                keys = sorted(hop2)
-                imp, _ = W.project(import_real(model, "tbm"))
-                recs.append(dict(fn="tbm", size=norb, pos=pos, onsite=onsite, steps=steps, keys=[list(K) for K in keys],
-                                 hop2=[W.mat_json(hop2[K]) for K in keys], imp=W.sys_json(imp)))
+                rec = rec_tbm(rng, norb, pos, skew)
+                if rec is None:
+                    continue
+                recs.append(rec)
             else:
-                mp, mt = ptb_new(norb, 1, pos), tbm_new(norb, pos, [0] * norb)
+                mp, mt = ptb_new(norb, 1, pos, skew), tbm_new(norb, pos, [0] * norb, skew)
                 for _ in range(rng.randint(1, 6)):
                     amp = [rng.randint(-3, 3), rng.randint(-3, 3)]
                     ii, jj, R = rng.randint(1, norb), rng.randint(1, norb), list(rng.choice(Rs))
@@ -445,8 +534,13 @@ def check_c32(rep, thorough):
         rep.case(("rec", recs[-1]["fn"], i))
     from .sysalg import _validate, _selftest, _flip
     site = dict(ptb="from_pythtb", tbm="from_tbmodels", pair="from_pythtb_vs_from_tbmodels")
-    _validate(rep, recs, "c32", lambda r: site[r["fn"]])
-    _selftest(rep, next(r for r in recs if r["fn"] == "tbm"), lambda r: _flip(r["imp"]["H"][0][0][0]), "c32", "import_equals_spec")
+    # a difference of the builder's state from the modelled library is not a statement about wannierberri
+    _validate(rep, recs, "c32", lambda r: site[r["fn"]], environment=("raises", "builder_state"))
+    try:
+        r0 = rec_tbm(random.Random(4242), 2, [[0, 0, 0], [15, 6, 0]], False)
+    except W.NonIntegral:
+        r0 = None
+    _selftest(rep, r0, lambda r: _flip(r["imp"]["H"][0][0][0]), "c32", "import_equals_spec")
     return rep.finish()
 
 
